@@ -169,17 +169,20 @@ def check_flush(ctx, num=3, only=None):
         for p_ in put:
             twice = twice or g.path_avoiding(p_, put, {hid})
         ctx.ob(num, "K16", f"{meth}: no element is put into two groups", twice is None, f, lp, construct="element grouped once", detail="ok" if twice is None else g.describe_path(twice))
+        def _is_key(term):
+            """the term reads the key attribute, directly or as a local bound once in the loop to an expression that does (item_key = item.<key>)"""
+            return keyattr in term or (term in le and cnt.get(term) == 1 and keyattr in norm.U(le[term]))
         # equality of keys
         for a in apps:
             fs = g.facts_at(a)
-            eq = [z for z in fs if z[0] == "cmp" and z[1] == "==" and (keyattr in z[2] or keyattr in z[3])]
+            eq = [z for z in fs if z[0] == "cmp" and z[1] == "==" and (_is_key(z[2]) or _is_key(z[3]))]
             ok = len(eq) >= 1
             ctx.ob(num, "K16", f"{meth}: an element joins the current group only if its {keyattr} is exactly equal (==) to the group's", ok, f, a,
                    detail=f"facts at the append: {sorted(norm.show(z) for z in fs)}")
         # the boundary between two groups is a change of the key and nothing else: where a new group is started the key differs (or there is no group yet)
         def _justifies(z, depth=0):
             """this condition says: the key differs from the current group's, or there is no group yet"""
-            if z[0] == "cmp" and z[1] == "!=" and (keyattr in z[2] or keyattr in z[3]):
+            if z[0] == "cmp" and z[1] == "!=" and (_is_key(z[2]) or _is_key(z[3])):
                 return True
             if z[0] == "cmp" and z[1] == "is" and z[3] == "None":
                 return True
